@@ -47,7 +47,7 @@ type (
 const (
 	_FULLPATTERN  = `('[^']*'+|\<\-|\*|[\w]+|\[[^\[\]]*\]|\{[^\{\}]*\})`
 	_ARRAYPATTERN = `\([^\)]*\)+|\w+`
-	_PIPEPATTERN  = `('[^']*'+|\w+)(!?\|\w+)|\w+`
+	_PIPEPATTERN  = `('[^']*'+|\w+)(!?\|\w+)?`
 )
 
 // IndexType enum
